@@ -800,6 +800,33 @@ pub fn for_each_history(k: usize, depth: usize, f: impl Fn(&[usize]) + Sync) {
     }
 }
 
+extern "C" {
+    fn sched_setaffinity(pid: i32, cpusetsize: usize, mask: *const u64) -> i32;
+    fn sched_getcpu() -> i32;
+}
+
+/// Runs `f` on a fresh thread whose affinity mask holds a single CPU, so that
+/// `std::thread::available_parallelism()` and friends report 1. Returns None if the thread died or
+/// the affinity could not be set (then nothing is concluded).
+pub fn on_one_cpu<T: Send>(f: impl FnOnce() -> T + Send) -> Option<T> {
+    std::thread::scope(|s| {
+        s.spawn(move || {
+            // SAFETY: plain libc calls with a valid, correctly sized mask
+            let cpu = unsafe { sched_getcpu() }.max(0) as usize;
+            let mut mask = [0u64; 16];
+            mask[(cpu / 64) % 16] = 1u64 << (cpu % 64);
+            let rc = unsafe { sched_setaffinity(0, std::mem::size_of_val(&mask), mask.as_ptr()) };
+            if rc != 0 || std::thread::available_parallelism().map(|n| n.get()).unwrap_or(0) != 1 {
+                return None;
+            }
+            Some(f())
+        })
+        .join()
+        .ok()
+        .flatten()
+    })
+}
+
 /// Generic history-independence check (differential oracle): `op(i)` is run alone on a fresh
 /// thread to obtain its history-free result, then every sequence of <= depth operations is run
 /// back-to-back on a fresh thread and every result must equal the history-free one. A panic inside
@@ -819,6 +846,18 @@ pub fn history_check<R: PartialEq + Send + Sync + std::fmt::Debug>(
             let h = s.spawn(move || op(i));
             *slot = h.join().ok();
         });
+    }
+    // processor dimension: the same operation on a thread that may run on ONE cpu only
+    // (`available_parallelism()` == 1 there, as on a 1-vCPU instance or under `taskset -c 0`)
+    for (i, b) in base.iter().enumerate() {
+        let r = on_one_cpu(|| op(i));
+        if r.as_ref() != b.as_ref() && r.is_some() {
+            ctx.fail(
+                &format!("cpus:{what}:result_depends_on_processors_available"),
+                || format!("{what}: {} gives {} on a thread restricted to one CPU, {} otherwise", describe(i), format!("{:?}", r).chars().take(160).collect::<String>(), format!("{:?}", b).chars().take(160).collect::<String>()),
+                || json!({"op": "history", "what": what, "sequence": [i], "one_cpu": true}),
+            );
+        }
     }
     let stats = Mutex::new(Stats::new());
     for_each_history(k, depth, |w| {
@@ -847,7 +886,48 @@ pub fn history_check<R: PartialEq + Send + Sync + std::fmt::Debug>(
         let old = std::mem::take(&mut *g);
         *g = old.merge(st);
     });
-    stats.into_inner().unwrap_or_else(|e| e.into_inner())
+    // cross-API interference: an unrelated operation of the library (with varied content) runs
+    // first on a fresh thread, then each probe operation; process-wide state written by the former
+    // must not change the latter. The number of disturbances used is bounded by a time budget for
+    // expensive probes (all of them in the thorough tier); the subset is a stride through the list.
+    let t0 = Instant::now();
+    for i in 0..k {
+        let _ = op(i);
+    }
+    let per_round = t0.elapsed().as_secs_f64().max(1e-6);
+    let dist = crate::props::disturb::disturbances();
+    let budget_s = if ctx.tier.thorough() { 120.0 } else { 2.0 };
+    let n_use = ((budget_s / per_round) as usize).clamp(24, dist.len());
+    let stride = (dist.len() / n_use).max(1);
+    let mut used = 0u64;
+    let mut st = stats.into_inner().unwrap_or_else(|e| e.into_inner());
+    for (di, (label, d)) in dist.iter().enumerate() {
+        if di % stride != 0 {
+            continue;
+        }
+        used += 1;
+        let results: Vec<R> = std::thread::scope(|s| {
+            let op = &op;
+            s.spawn(move || {
+                d();
+                (0..k).map(op).collect::<Vec<R>>()
+            })
+            .join()
+            .unwrap_or_default()
+        });
+        for (i, r) in results.iter().enumerate() {
+            st.eval();
+            if Some(r) != base[i].as_ref() {
+                ctx.fail(
+                    &format!("interference:{what}:result_depends_on_an_unrelated_earlier_operation"),
+                    || format!("{what}: after `{label}` ran in the same process, {} gives {} instead of {}", describe(i), format!("{:?}", r).chars().take(160).collect::<String>(), format!("{:?}", base[i]).chars().take(160).collect::<String>()),
+                    || json!({"op": "history", "what": what, "sequence": [i], "disturbance": label}),
+                );
+            }
+        }
+    }
+    st.count("cross_api_disturbances_applied", used);
+    st
 }
 
 // ---------------------------------------------------------------------------------------------
